@@ -205,6 +205,8 @@ def sig_detail(d):
 RULES = [
     ('break outside a loop', 'break'), ('break outside a loop (in if)', 'if {v > 0} break'),
     ('break in routine outside loop', 'define r2 begin break end'),
+    ('break in routine defined inside a loop', 'repeat 2 begin define r3 begin break end end'),
+    ('break in routine defined inside a loop, in an if', 'repeat 2 begin define r3 begin if {v > 1} break end r3 end'),
     ('assign to a macro', 'assign m 6'), ('redefine a macro', 'define m 6'), ('redefine a routine', 'define f on all'),
     ('undefined variable', 'hue nosuch'), ('undefined name as light', 'set nosuch'), ('undefined routine', 'nosuch 1'),
     ('undefined in expression', 'hue {nosuch + 1}'), ('first assignment refers to itself', 'assign nosuch nosuch'),
